@@ -10,4 +10,5 @@ CONSTANTS
   BugListMoveCtor = FALSE
 VIEW RView
 INVARIANTS TypeOK RingOK NoDeadRef NoUAF NoStaleHead WalkAgree Refines
+CONSTRAINT REmit
 CHECK_DEADLOCK FALSE
